@@ -540,6 +540,7 @@ Proof.
 Qed.
 
 (* ================= the poll descriptors ================= *)
+Ltac inv H := injection H as <- <-.
 Ltac open_flags s :=
   destruct s as [p0 ttl wmq wcap waq rmq rcap raq rd wr sn rdb wrb];
   unfold PInv, RInv, WInv, can_recv, can_send, op_ok in *; simp_r.
@@ -555,35 +556,35 @@ Proof.
   intros HI Hok Hns HR H. pose proof HI as (I1 & I2 & I3 & I4 & I5 & I6 & I7).
   destruct o as [c a nb m|c a nb|a rv|p peer|p|p rv|p rv m| c op|c|c| |now]; cbn [pair_step] in H.
   - (* PSend: receive side untouched *)
-    destruct (norm_send k m); [|inversion H; subst; exact HR].
-    open_flags s. destruct wr; [destruct p0|destruct (lmq_full wmq wcap); [destruct nb|]]; inversion H; subst; simp_r; exact HR.
+    destruct (norm_send k m); [|inv H; exact HR].
+    open_flags s. destruct wr; [destruct p0|destruct (lmq_full wmq wcap); [destruct nb|]]; inv H; simp_r; exact HR.
   - (* PRecv *)
     open_flags s. destruct rmq as [|m rest].
-    + destruct rd; [|destruct nb]; inversion H; subst; simp_r; auto.
+    + destruct rd; [|destruct nb]; inv H; simp_r; auto.
     + destruct rd as [h|].
-      * cbn [length] in I5. rewrite lmq_put_ok in H by lia. inversion H; subst; simp_r.
+      * cbn [length] in I5. rewrite lmq_put_ok in H by lia. inv H; simp_r.
         destruct rest; cbn in *; auto.
-      * inversion H; subst; simp_r. destruct rest; cbn in *; auto.
-  - open_flags s. destruct (has_aio a waq); [|destruct (has_id a raq)]; inversion H; subst; simp_r; exact HR.
+      * inv H; simp_r. destruct rest; cbn in *; auto.
+  - open_flags s. destruct (has_aio a waq); [|destruct (has_id a raq)]; inv H; simp_r; exact HR.
   - (* PPipeStart *)
-    destruct (negb (peer =? pair_peer k)%N); [inversion H; subst; exact HR|].
-    destruct (pr_p s) eqn:EP; [inversion H; subst; exact HR|].
+    destruct (negb (peer =? pair_peer k)%N); [inv H; exact HR|].
+    destruct (pr_p s) eqn:EP; [inv H; exact HR|].
     assert (WR: pr_wr s = false).
     { destruct (pr_wr s) eqn:W; auto. destruct (I1 eq_refl) as (A & _). destruct A. }
     assert (RD: pr_rd s = None).
     { destruct (pr_rd s) eqn:R; auto. destruct I2 as [A _]; [discriminate|]. congruence. }
     set (s1 := mkPair (Some p) (pr_ttl s) (pr_wmq s) (pr_wcap s) (pr_waq s) (pr_rmq s) (pr_rcap s) (pr_raq s) None (pr_wr s)
                       (pr_sending s) (pr_readable s) (pr_writable s)) in *.
-    destruct (pair_send_sched k s1) as [s2 o2] eqn:SS. inversion H; subst; clear H. cbn [op_ok] in Hok.
-    destruct (sched_law s1 p (PPipeStart p peer) s' o2 ltac:(intros; discriminate) eq_refl Hok WR I4 I6 I7 SS)
+    destruct (pair_send_sched k s1) as [s2 o2] eqn:SS. inv H. cbn [op_ok] in Hok.
+    destruct (sched_law s1 p (PPipeStart p peer) s2 o2 ltac:(intros; discriminate) eq_refl Hok WR I4 I6 I7 SS)
       as (_ & (F1 & F2 & F3 & F4 & F5 & F6 & F7 & F8) & _).
     unfold RInv, can_recv in *. rewrite F4, F7, F8. unfold s1; simp_r. rewrite HR, RD. reflexivity.
   - (* PPipeClose *)
-    open_flags s. destruct p0 as [q|]; [destruct (q =? p)%N|]; inversion H; subst; simp_r; auto.
-    destruct rmq; cbn in *; auto. destruct rd; auto.
+    open_flags s. destruct p0 as [q|]; [destruct (q =? p)%N|]; inv H; simp_r; auto.
+    all: try solve [destruct rmq; cbn in *; auto; destruct rd; auto].
   - (* PSendDone *)
     destruct (negb (rv =? 0)%N) eqn:ER.
-    + open_flags s. inversion H; subst; simp_r; exact HR.
+    + open_flags s. inv H; simp_r; exact HR.
     + destruct (N.eqb_spec rv 0) as [->|]; [|discriminate]. destruct Hok as [Hin HP]. specialize (HP eq_refl).
       assert (WR: pr_wr s = false).
       { destruct (pr_wr s) eqn:W; auto. destruct (I1 eq_refl) as (A & _). rewrite HP in A. contradiction. }
@@ -593,24 +594,24 @@ Proof.
                   (set_snd_none_nodup _ _ I7) H) as (_ & (F1 & F2 & F3 & F4 & F5 & F6 & F7 & F8) & _).
       unfold RInv, can_recv in *. rewrite F4, F7, F8. unfold s0; simp_r. exact HR.
   - (* PRecvDone *)
-    open_flags s. destruct (negb (rv =? 0)%N); [inversion H; subst; exact HR|].
-    destruct (rx_decode k ttl m); try (inversion H; subst; exact HR).
+    open_flags s. destruct (negb (rv =? 0)%N); [inv H; exact HR|].
+    destruct (rx_decode k ttl m); try (inv H; exact HR).
     destruct raq as [|a rest].
-    + destruct (lmq_full rmq rcap); cbn [negb] in H; inversion H; subst; simp_r.
+    + destruct (lmq_full rmq rcap); cbn [negb] in H; inv H; simp_r.
       * destruct rmq; reflexivity.
       * destruct rmq; reflexivity.
-    + assert (RQ: rmq = []) by (apply I3; discriminate). inversion H; subst; simp_r. exact HR.
+    + assert (RQ: rmq = []) by (apply I3; discriminate). inv H; simp_r. exact HR.
   - (* PSetOpt *)
-    open_flags s. destruct op; try (inversion H; subst; exact HR).
-    + destruct (PAIR_BUF_MAX <? N.of_nat n)%N; inversion H; subst; simp_r; exact HR.
-    + destruct (PAIR_BUF_MAX <? N.of_nat n)%N; inversion H; subst; simp_r; [exact HR|].
-      destruct (firstn n rmq); cbn; auto. destruct rd; auto.
-    + destruct k; [inversion H; subst; exact HR|].
-      destruct ((n <? PAIR_TTL_MIN) || (PAIR_TTL_MAX <? n)); inversion H; subst; simp_r; exact HR.
-  - inversion H; subst; exact HR.
-  - inversion H; subst; exact HR.
+    open_flags s. destruct op; try (inv H; exact HR).
+    + destruct (PAIR_BUF_MAX <? N.of_nat n)%N; inv H; simp_r; exact HR.
+    + destruct (PAIR_BUF_MAX <? N.of_nat n)%N; inv H; simp_r; [exact HR|].
+      destruct (firstn n rmq); cbn; auto. destruct rd; auto. rewrite HR. now rewrite orb_true_r.
+    + destruct k; [inv H; exact HR|].
+      destruct ((n <? PAIR_TTL_MIN) || (PAIR_TTL_MAX <? n)); inv H; simp_r; exact HR.
+  - inv H; exact HR.
+  - inv H; exact HR.
   - congruence.
-  - inversion H; subst; exact HR.
+  - inv H; exact HR.
 Qed.
 
 (* the send descriptor: every step keeps it equal to "a non-blocking send would not get
@@ -622,33 +623,33 @@ Proof.
   intros HI Hok Hns Hfx HW H. pose proof HI as (I1 & I2 & I3 & I4 & I5 & I6 & I7).
   destruct o as [c a nb m|c a nb|a rv|p peer|p|p rv|p rv m| c op|c|c| |now]; cbn [pair_step] in H.
   - (* PSend *)
-    destruct (norm_send k m); [|inversion H; subst; exact HW].
+    destruct (norm_send k m) as [m'|]; [|inv H; exact HW].
     open_flags s. destruct wr.
-    + destruct (I1 eq_refl) as (A & B & C). subst. destruct p0; [|contradiction]. inversion H; subst; simp_r.
+    + destruct (I1 eq_refl) as (A & B & C). subst. destruct p0; [|contradiction]. inv H; simp_r.
       unfold lmq_full in *. cbn [length] in *. destruct (wcap <=? 0); cbn in *; auto.
     + destruct (lmq_full wmq wcap) eqn:F; cbn [negb] in H.
-      * destruct nb; inversion H; subst; simp_r; auto.
-      * inversion H; subst; simp_r. rewrite F in HW. cbn in *. destruct (lmq_full (wmq ++ [n]) wcap); cbn; auto.
+      * destruct nb; inv H; simp_r; rewrite ?F; auto.
+      * inv H; simp_r. rewrite ?F in HW. cbn in *. destruct (lmq_full (wmq ++ [m']) wcap); cbn; auto.
   - (* PRecv: send side untouched *)
-    open_flags s. destruct rmq as [|m rest]; [destruct rd; [|destruct nb]|destruct rd]; inversion H; subst; simp_r; exact HW.
-  - open_flags s. destruct (has_aio a waq); [|destruct (has_id a raq)]; inversion H; subst; simp_r; exact HW.
+    open_flags s. destruct rmq as [|m rest]; [destruct rd; [|destruct nb]|destruct rd]; inv H; simp_r; exact HW.
+  - open_flags s. destruct (has_aio a waq); [|destruct (has_id a raq)]; inv H; simp_r; exact HW.
   - (* PPipeStart *)
-    destruct (negb (peer =? pair_peer k)%N); [inversion H; subst; exact HW|].
-    destruct (pr_p s) eqn:EP; [inversion H; subst; exact HW|].
+    destruct (negb (peer =? pair_peer k)%N); [inv H; exact HW|].
+    destruct (pr_p s) eqn:EP; [inv H; exact HW|].
     assert (WR: pr_wr s = false).
     { destruct (pr_wr s) eqn:W; auto. destruct (I1 eq_refl) as (A & _). destruct A. }
     set (s1 := mkPair (Some p) (pr_ttl s) (pr_wmq s) (pr_wcap s) (pr_waq s) (pr_rmq s) (pr_rcap s) (pr_raq s) None (pr_wr s)
                       (pr_sending s) (pr_readable s) (pr_writable s)) in *.
-    destruct (pair_send_sched k s1) as [s2 o2] eqn:SS. inversion H; subst; clear H. cbn [op_ok] in Hok.
-    destruct (sched_law s1 p (PPipeStart p peer) s' o2 ltac:(intros; discriminate) eq_refl Hok WR I4 I6 I7 SS)
+    destruct (pair_send_sched k s1) as [s2 o2] eqn:SS. inv H. cbn [op_ok] in Hok.
+    destruct (sched_law s1 p (PPipeStart p peer) s2 o2 ltac:(intros; discriminate) eq_refl Hok WR I4 I6 I7 SS)
       as (_ & _ & _ & _ & _ & _ & _ & _ & _ & W). apply W. exact HW.
   - (* PPipeClose *)
-    open_flags s. destruct p0 as [q|]; [destruct (q =? p)%N eqn:EQ|]; inversion H; subst; simp_r; auto.
+    open_flags s. destruct p0 as [q|]; [destruct (q =? p)%N eqn:EQ|]; inv H; simp_r; auto.
     destruct wr; [|exact HW]. destruct Hfx as [->|Hn]; [|exfalso; eapply Hn; reflexivity].
-    cbn. destruct (I1 eq_refl) as (A & B & C). subst. destruct (lmq_full [] wcap) eqn:F; cbn; auto. rewrite HW. cbn. reflexivity.
+    cbn. destruct (I1 eq_refl) as (A & B & C). subst. destruct (lmq_full [] wcap) eqn:F; cbn; auto; try (rewrite HW; cbn; reflexivity).
   - (* PSendDone *)
     destruct (negb (rv =? 0)%N) eqn:ER.
-    + open_flags s. inversion H; subst; simp_r; exact HW.
+    + open_flags s. inv H; simp_r; exact HW.
     + destruct (N.eqb_spec rv 0) as [->|]; [|discriminate]. destruct Hok as [Hin HP]. specialize (HP eq_refl).
       assert (WR: pr_wr s = false).
       { destruct (pr_wr s) eqn:W; auto. destruct (I1 eq_refl) as (A & _). rewrite HP in A. contradiction. }
@@ -657,21 +658,316 @@ Proof.
       destruct (sched_law s0 p (PSendDone p 0) s' outs ltac:(intros; discriminate) HP (set_snd_none_notin _ _) WR I4 I6
                   (set_snd_none_nodup _ _ I7) H) as (_ & _ & _ & _ & _ & _ & _ & _ & _ & W). apply W. exact HW.
   - (* PRecvDone: send side untouched *)
-    open_flags s. destruct (negb (rv =? 0)%N); [inversion H; subst; exact HW|].
-    destruct (rx_decode k ttl m); try (inversion H; subst; exact HW).
-    destruct raq; [destruct (lmq_full rmq rcap); cbn [negb] in H|]; inversion H; subst; simp_r; exact HW.
+    open_flags s. destruct (negb (rv =? 0)%N); [inv H; exact HW|].
+    destruct (rx_decode k ttl m); try (inv H; exact HW).
+    destruct raq; [destruct (lmq_full rmq rcap); cbn [negb] in H|]; inv H; simp_r; exact HW.
   - (* PSetOpt *)
-    open_flags s. destruct op; try (inversion H; subst; exact HW).
-    + destruct (PAIR_BUF_MAX <? N.of_nat n)%N; inversion H; subst; simp_r; [exact HW|].
-      destruct (lmq_full (firstn n wmq) n); cbn; [|now rewrite orb_true_r]. destruct wr; cbn; auto.
-      rewrite HW. reflexivity.
-    + destruct (PAIR_BUF_MAX <? N.of_nat n)%N; inversion H; subst; simp_r; exact HW.
-    + destruct k; [inversion H; subst; exact HW|].
-      destruct ((n <? PAIR_TTL_MIN) || (PAIR_TTL_MAX <? n)); inversion H; subst; simp_r; exact HW.
-  - inversion H; subst; exact HW.
-  - inversion H; subst; exact HW.
+    open_flags s. destruct op; try (inv H; exact HW).
+    + destruct (PAIR_BUF_MAX <? N.of_nat n)%N; inv H; simp_r; [exact HW|].
+      destruct (lmq_full (firstn n wmq) n); cbn; [|now rewrite orb_true_r]. destruct wr; cbn; auto; try (rewrite HW; reflexivity).
+    + destruct (PAIR_BUF_MAX <? N.of_nat n)%N; inv H; simp_r; exact HW.
+    + destruct k; [inv H; exact HW|].
+      destruct ((n <? PAIR_TTL_MIN) || (PAIR_TTL_MAX <? n)); inv H; simp_r; exact HW.
+  - inv H; exact HW.
+  - inv H; exact HW.
   - congruence.
-  - inversion H; subst; exact HW.
+  - inv H; exact HW.
+Qed.
+
+(* ================= one peer at a time ================= *)
+Theorem pair_second_peer_rejected s q p peer :
+  pr_p s = Some q ->
+  pair_step k fx s (PPipeStart p peer) = (s, [Reject (if N.eqb peer (pair_peer k) then E_BUSY else E_PROTO)]).
+Proof. intros HP. cbn [pair_step]. destruct (peer =? pair_peer k)%N; cbn [negb]; [rewrite HP|]; reflexivity. Qed.
+
+Theorem pair_wrong_peer_rejected s p peer :
+  peer <> pair_peer k -> pair_step k fx s (PPipeStart p peer) = (s, [Reject E_PROTO]).
+Proof. intros Hne. cbn [pair_step]. destruct (N.eqb_spec peer (pair_peer k)); [contradiction|]. reflexivity. Qed.
+
+Lemma sched_no_reject s s' outs : pair_send_sched k s = (s', outs) -> pr_p s' = pr_p s /\ forall rv, ~ In (Reject rv) outs.
+Proof.
+  unfold pair_send_sched. destruct (pr_p s) as [p|] eqn:EP.
+  - destruct (pr_wmq s) as [|m rest]; destruct (pr_waq s) as [|[a m2] aqr]; intros H; inversion H; subst; simp_r;
+      (split; [auto|]); intros rv HH; in_cases HH.
+  - intros H; inversion H; subst. split; auto.
+Qed.
+
+Theorem pair_peer_released_then_accepted s q s1 o1 :
+  pr_p s = Some q -> pair_step k fx s (PPipeClose q) = (s1, o1) ->
+  pr_p s1 = None /\
+  forall p s2 o2, pair_step k fx s1 (PPipeStart p (pair_peer k)) = (s2, o2) ->
+    pr_p s2 = Some p /\ In (TranRecv p) o2 /\ forall rv, ~ In (Reject rv) o2.
+Proof.
+  intros HP H. cbn [pair_step] in H. rewrite HP, N.eqb_refl in H. inversion H; subst; clear H; simp_r.
+  split; [reflexivity|]. intros p s2 o2 H2. cbn [pair_step] in H2. rewrite N.eqb_refl in H2. cbn [negb] in H2. simp_r.
+  match type of H2 with (let (_, _) := pair_send_sched k ?s1 in _) = _ => destruct (pair_send_sched k s1) as [s3 o3] eqn:SS end.
+  inversion H2; subst; clear H2. destruct (sched_no_reject _ _ _ SS) as [A B]. simp_r.
+  split; [exact A|]. split; [apply in_or_app; right; left; reflexivity|].
+  intros rv Hin. apply in_app_or in Hin as [Hin|[E|[]]]; [eapply B; eauto|inversion E].
+Qed.
+
+(* ================= sending: blocks or refuses, never drops ================= *)
+Theorem pair_send_nonblocking s c a m s' outs :
+  pair_step k fx s (PSend c a true m) = (s', outs) ->
+  exists rv rest, outs = Complete a rv None :: rest /\ pr_waq s' = pr_waq s /\ (forall x, ~ In (Free x) outs) /\
+    (rv = E_AGAIN <-> (norm_send k m <> None /\ can_send s = false)) /\
+    (rv = E_PROTO <-> norm_send k m = None) /\
+    (rv <> E_OK -> s' = s /\ rest = []) /\
+    (rv = E_OK \/ rv = E_AGAIN \/ rv = E_PROTO).
+Proof.
+  intros H. cbn [pair_step] in H. unfold can_send.
+  destruct (norm_send k m) as [m'|] eqn:EN.
+  - destruct (pr_wr s) eqn:W.
+    + destruct (pr_p s) as [p|]; inversion H; subst; clear H; simp_r.
+      * exists E_OK, [TranSend p (wire_form k m')]. repeat split; auto; try discriminate; try (intros ? HH; in_cases HH); try (intros [? ?]; discriminate); try congruence.
+      * exists E_OK, []. repeat split; auto; try discriminate; try (intros ? HH; in_cases HH); try (intros [? ?]; discriminate); try congruence.
+    + destruct (lmq_full (pr_wmq s) (pr_wcap s)) eqn:F; cbn [negb] in H; inversion H; subst; clear H; simp_r.
+      * exists E_AGAIN, []. repeat split; auto; try discriminate; try (intros ? HH; in_cases HH); try congruence.
+      * exists E_OK, []. repeat split; auto; try discriminate; try (intros ? HH; in_cases HH); try (intros [? ?]; discriminate); try congruence.
+  - inversion H; subst; clear H. exists E_PROTO, []. repeat split; auto; try discriminate; try (intros ? HH; in_cases HH); try (intros [? ?]; congruence); try congruence.
+Qed.
+
+Theorem pair_send_blocks_not_drops s c a m m' :
+  norm_send k m = Some m' -> can_send s = false ->
+  pair_step k fx s (PSend c a false m) =
+    (mkPair (pr_p s) (pr_ttl s) (pr_wmq s) (pr_wcap s) (pr_waq s ++ [(a, m')]) (pr_rmq s) (pr_rcap s) (pr_raq s)
+            (pr_rd s) (pr_wr s) (pr_sending s) (pr_readable s) (pr_writable s), []).
+Proof.
+  unfold can_send. intros EN HC. cbn [pair_step]. rewrite EN. apply orb_false_iff in HC as [W F]. rewrite W.
+  apply negb_false_iff in F. rewrite F. reflexivity.
+Qed.
+
+(* a blocking send that can be taken is taken at once *)
+Theorem pair_send_accepts_when_possible s c a nb m s' outs :
+  PInv s -> norm_send k m <> None -> can_send s = true ->
+  pair_step k fx s (PSend c a nb m) = (s', outs) -> exists rest, outs = Complete a E_OK None :: rest /\ pr_waq s' = pr_waq s.
+Proof.
+  unfold can_send. intros HI EN HC H. cbn [pair_step] in H. destruct (norm_send k m) as [m'|]; [|congruence].
+  destruct (pr_wr s) eqn:W.
+  - destruct (pr_p s); inversion H; subst; simp_r; eauto.
+  - cbn in HC. rewrite HC in H. inversion H; subst; simp_r; eauto.
+Qed.
+
+(* ================= receiving ================= *)
+Theorem pair_recv_nonblocking s c a s' outs :
+  PInv s -> pair_step k fx s (PRecv c a true) = (s', outs) ->
+  exists rv mo rest, outs = Complete a rv mo :: rest /\ pr_raq s' = pr_raq s /\ (forall x, ~ In (Free x) outs) /\
+    (rv = E_AGAIN <-> can_recv s = false) /\
+    (rv = E_AGAIN -> s' = s /\ mo = None /\ rest = []) /\
+    (rv <> E_AGAIN -> rv = E_OK /\ exists x, mo = Some x /\ hd_error (inq s) = Some x).
+Proof.
+  intros HI H. cbn [pair_step] in H. unfold can_recv, inq, rdl.
+  destruct (pr_rmq s) as [|m rest] eqn:ER.
+  - destruct (pr_rd s) as [h|] eqn:ED; inversion H; subst; clear H; simp_r.
+    + eexists E_OK, (Some h), _. repeat split; auto; try discriminate; try (intros ? HH; destruct (pr_p s); in_cases HH); eauto.
+    + exists E_AGAIN, None, []. repeat split; auto; try discriminate; try (intros ? HH; in_cases HH); try congruence.
+  - match type of H with (let '(_, _) := ?X in _) = _ => destruct X as [rmq' rearm] eqn:EX end.
+    inversion H; subst; clear H; simp_r.
+    eexists E_OK, (Some m), _. repeat split; auto; try discriminate; eauto.
+    intros x HH. destruct HH as [HH|HH]; [inversion HH|].
+    destruct (pr_rd s); inversion EX; subst; [destruct (pr_p s)|]; in_cases HH.
+Qed.
+
+Theorem pair_recv_blocks s c a :
+  can_recv s = false ->
+  pair_step k fx s (PRecv c a false) =
+    (mkPair (pr_p s) (pr_ttl s) (pr_wmq s) (pr_wcap s) (pr_waq s) [] (pr_rcap s) (pr_raq s ++ [a])
+            None (pr_wr s) (pr_sending s) (pr_readable s) (pr_writable s), []).
+Proof.
+  unfold can_recv. intros HC. cbn [pair_step]. destruct (pr_rmq s); [|discriminate]. destruct (pr_rd s); [discriminate|]. reflexivity.
+Qed.
+
+(* ================= histories ================= *)
+Definition ptrace := list (pop * pair * list pout).
+Fixpoint pair_run (s : pair) (ops : list pop) : pair * ptrace :=
+  match ops with
+  | [] => (s, [])
+  | o :: r => let (s1, outs) := pair_step k fx s o in
+              let (s2, tr) := pair_run s1 r in (s2, (o, s, outs) :: tr)
+  end.
+Fixpoint ops_ok (s : pair) (ops : list pop) : Prop :=
+  match ops with
+  | [] => True
+  | o :: r => op_ok s o /\ ops_ok (fst (pair_step k fx s o)) r
+  end.
+Fixpoint tr_acc (tr : ptrace) : list pmsg := match tr with [] => [] | (o, s, outs) :: r => paccepted s o outs ++ tr_acc r end.
+Fixpoint tr_tx (tr : ptrace) : list pmsg := match tr with [] => [] | (o, s, outs) :: r => txs outs ++ tr_tx r end.
+Fixpoint tr_wloss (tr : ptrace) : list pmsg := match tr with [] => [] | (o, s, outs) :: r => wloss s o ++ tr_wloss r end.
+Fixpoint tr_arr (tr : ptrace) : list pmsg := match tr with [] => [] | (o, s, outs) :: r => arrived_ok s o ++ tr_arr r end.
+Fixpoint tr_dlv (tr : ptrace) : list pmsg := match tr with [] => [] | (o, s, outs) :: r => pdelivered outs ++ tr_dlv r end.
+Fixpoint tr_rloss (tr : ptrace) : list pmsg := match tr with [] => [] | (o, s, outs) :: r => rloss s o ++ tr_rloss r end.
+
+Lemma sublist_insert {A} (x u w v : list A) : sublist x (u ++ v) -> sublist x (u ++ w ++ v).
+Proof.
+  intros H. eapply sublist_trans; [exact H|]. apply sublist_app; [apply sublist_refl|apply sl_skip_app].
+Qed.
+
+Theorem pair_run_law ops : forall s, PInv s -> ops_ok s ops ->
+  let (s', tr) := pair_run s ops in
+  PInv s' /\
+  (* outbound: what reached the transport, plus what is still buffered, is an in-order
+     sub-sequence of what was accepted -- all of it when nothing was explicitly dropped *)
+  sublist (tr_tx tr ++ map (wire_form k) (pr_wmq s')) (map (wire_form k) (pr_wmq s ++ tr_acc tr)) /\
+  (tr_wloss tr = [] -> tr_tx tr ++ map (wire_form k) (pr_wmq s') = map (wire_form k) (pr_wmq s ++ tr_acc tr)) /\
+  (forall x, cnt x (map (wire_form k) (pr_wmq s ++ tr_acc tr)) = cnt x (tr_tx tr ++ map (wire_form k) (pr_wmq s' ++ tr_wloss tr))) /\
+  (* inbound: the same for what was delivered to the application *)
+  sublist (tr_dlv tr ++ inq s') (inq s ++ tr_arr tr) /\
+  (tr_rloss tr = [] -> tr_dlv tr ++ inq s' = inq s ++ tr_arr tr) /\
+  (forall x, cnt x (inq s ++ tr_arr tr) = cnt x (tr_dlv tr ++ inq s' ++ tr_rloss tr)).
+Proof.
+  induction ops as [|o r IH]; intros s HI Hok; cbn [pair_run].
+  - cbn [tr_tx tr_acc tr_wloss tr_arr tr_dlv tr_rloss app]. rewrite !app_nil_r.
+    split; [exact HI|]. repeat split; auto; try apply sublist_refl.
+  - cbn [ops_ok] in Hok. destruct Hok as [Ho Hr]. destruct (pair_step k fx s o) as [s1 outs] eqn:S. cbn [fst] in Hr.
+    destruct (pair_step_law _ _ _ _ HI Ho S) as (HI1 & C1 & C2 & C3 & C3s & C3l & C4 & _).
+    specialize (IH s1 HI1 Hr). destruct (pair_run s1 r) as [s2 tr]. destruct IH as (A & O1 & O2 & O3 & N1 & N2 & N3).
+    cbn [tr_tx tr_acc tr_wloss tr_arr tr_dlv tr_rloss].
+    split; [exact A|]. split; [|split; [|split; [|split; [|split]]]].
+    + rewrite !app_assoc. rewrite map_app. rewrite C1. rewrite map_app in *. rewrite <- !app_assoc.
+      apply sublist_app; [apply sublist_refl|]. apply sublist_insert. exact O1.
+    + intros E. apply app_eq_nil in E as [E1 E2]. rewrite E1, app_nil_r in C1.
+      rewrite !app_assoc. rewrite map_app. rewrite C1. rewrite <- !app_assoc. f_equal. rewrite O2 by exact E2. now rewrite map_app.
+    + intros x. specialize (O3 x). apply (f_equal (cnt x)) in C1. revert C1 O3. rewrite !map_app. rewrite !cnt_app. lia.
+    + rewrite <- !app_assoc. rewrite (app_assoc (inq s)).
+      eapply sublist_trans; [|apply sublist_app; [exact C3l|apply sublist_refl]].
+      rewrite <- !app_assoc. apply sublist_app; [apply sublist_refl|exact N1].
+    + intros E. apply app_eq_nil in E as [E1 E2]. rewrite (app_assoc (inq s)). rewrite (C3s E1).
+      rewrite <- !app_assoc. f_equal. apply N2. exact E2.
+    + intros x. specialize (N3 x). specialize (C3 x). revert C3 N3. rewrite !cnt_app. lia.
+Qed.
+
+(* the descriptors along a history that does not close the socket *)
+Theorem pair_run_mirror ops : forall s, PInv s -> ops_ok s ops -> ~ In PSockClose ops ->
+  RInv s -> (fx = true \/ forall p, ~ In (PPipeClose p) ops) -> WInv s ->
+  RInv (fst (pair_run s ops)) /\ ((fx = true \/ forall p, ~ In (PPipeClose p) ops) -> WInv (fst (pair_run s ops))).
+Proof.
+  induction ops as [|o r IH]; intros s HI Hok Hnc HR Hfx HW; cbn [pair_run].
+  - cbn. auto.
+  - cbn [ops_ok] in Hok. destruct Hok as [Ho Hr]. destruct (pair_step k fx s o) as [s1 outs] eqn:S. cbn [fst] in Hr.
+    destruct (pair_step_law _ _ _ _ HI Ho S) as (HI1 & _).
+    assert (Hno: o <> PSockClose) by (intros ->; apply Hnc; now left).
+    pose proof (pair_readable_mirror _ _ _ _ HI Ho Hno HR S) as HR1.
+    assert (Hfx1: fx = true \/ forall p, o <> PPipeClose p).
+    { destruct Hfx as [E|E]; [now left|right]. intros p ->. eapply E. left. reflexivity. }
+    pose proof (pair_writable_mirror _ _ _ _ HI Ho Hno Hfx1 HW S) as HW1.
+    assert (Hfxr: fx = true \/ forall p, ~ In (PPipeClose p) r).
+    { destruct Hfx as [E|E]; [now left|right]. intros p Hin. eapply E. right. exact Hin. }
+    specialize (IH s1 HI1 Hr (fun Hin => Hnc (or_intror Hin)) HR1 Hfxr HW1).
+    destruct (pair_run s1 r) as [s2 tr]. cbn [fst] in *. destruct IH as [A B]. split; [exact A|]. intros _. apply B. exact Hfxr.
 Qed.
 
 End Pair.
+
+(* ================= PAIRv1: the hop-count rules ================= *)
+(* a wire message of at least four bytes from the peer; v = its first 32-bit word, ANY value *)
+Theorem pair1_hop_rules_law raw fx s p hdr b0 b1 b2 b3 rest :
+  let m := mkPmsg hdr (b0 :: b1 :: b2 :: b3 :: rest) in
+  let v := word32 b0 b1 b2 b3 in
+  (* more than 0xff: malformed -- freed, sender disconnected, nothing else changes *)
+  ((255 < v)%N -> pair_step (K1 raw) fx s (PRecvDone p 0 m) = (s, [Free m; ClosePipe p])) /\
+  (* a valid count above the limit: freed, the receive re-armed, the connection kept *)
+  ((v <= 255)%N -> (N.of_nat (pr_ttl s) < v)%N -> pair_step (K1 raw) fx s (PRecvDone p 0 m) = (s, [Free m; TranRecv p])) /\
+  (* otherwise: admitted, with the hop count as header and the four bytes trimmed *)
+  ((v <= 255)%N -> (v <= N.of_nat (pr_ttl s))%N ->
+     rx_decode (K1 raw) (pr_ttl s) m = RxOk (mkPmsg (hdr ++ [0; 0; 0; v]%N) rest) /\
+     arrived_ok (K1 raw) s (PRecvDone p 0 m) = [mkPmsg (hdr ++ [0; 0; 0; v]%N) rest] /\
+     rx_rejected (K1 raw) s (PRecvDone p 0 m) = []).
+Proof.
+  intros m v. unfold m, v. cbn [pair_step N.eqb negb rx_decode get32 pm_body pm_hdr arrived_ok rx_rejected].
+  repeat split; intros.
+  - destruct (N.ltb_spec 255 (word32 b0 b1 b2 b3)); [reflexivity|lia].
+  - destruct (N.ltb_spec 255 (word32 b0 b1 b2 b3)); [lia|].
+    destruct (N.ltb_spec (N.of_nat (pr_ttl s)) (word32 b0 b1 b2 b3)); [reflexivity|lia].
+  - destruct (N.ltb_spec 255 (word32 b0 b1 b2 b3)); [lia|].
+    destruct (N.ltb_spec (N.of_nat (pr_ttl s)) (word32 b0 b1 b2 b3)); [lia|]. now rewrite be32_small.
+  - destruct (N.ltb_spec 255 (word32 b0 b1 b2 b3)); [lia|].
+    destruct (N.ltb_spec (N.of_nat (pr_ttl s)) (word32 b0 b1 b2 b3)); [lia|]. now rewrite be32_small.
+  - destruct (N.ltb_spec 255 (word32 b0 b1 b2 b3)); [lia|].
+    destruct (N.ltb_spec (N.of_nat (pr_ttl s)) (word32 b0 b1 b2 b3)); [lia|]. reflexivity.
+Qed.
+
+(* shorter than four bytes: malformed as well *)
+Theorem pair1_short_message_law raw fx s p m :
+  length (pm_body m) < 4 -> pair_step (K1 raw) fx s (PRecvDone p 0 m) = (s, [Free m; ClosePipe p]).
+Proof.
+  intros H. cbn [pair_step N.eqb negb rx_decode]. destruct m as [h b]. cbn [pm_body] in *.
+  destruct b as [|b0 [|b1 [|b2 [|b3 r]]]]; cbn in H; try lia; reflexivity.
+Qed.
+
+(* for well-formed bytes the admitted header is exactly the four bytes received *)
+Lemma word32_small_bytes b0 b1 b2 b3 : byte_ok b0 -> byte_ok b1 -> byte_ok b2 -> byte_ok b3 ->
+  (word32 b0 b1 b2 b3 <= 255)%N -> [0; 0; 0; word32 b0 b1 b2 b3]%N = [b0; b1; b2; b3].
+Proof. intros A B C D H. destruct (word32_small _ _ _ _ _ A B C D eq_refl H) as (-> & -> & -> & E). now rewrite <- E. Qed.
+
+(* outgoing: pipe_send adds one to the 32-bit header word *)
+Theorem pair1_bump_law b0 b1 b2 b3 body :
+  bump (mkPmsg [b0; b1; b2; b3] body) = mkPmsg (be32 ((word32 b0 b1 b2 b3 + 1) mod 4294967296)) body.
+Proof. unfold bump. cbn [get32 pm_hdr pm_body]. now rewrite app_nil_r. Qed.
+Theorem pair1_bump_small v body : (v <= 254)%N -> bump (mkPmsg [0; 0; 0; v]%N body) = mkPmsg [0; 0; 0; v + 1]%N body.
+Proof.
+  intros H. rewrite pair1_bump_law. unfold word32. cbn [N.mul]. rewrite !N.add_0_l.
+  rewrite N.mod_small by lia. now rewrite be32_small by lia.
+Qed.
+
+(* sock_send: cooked sockets start every message at hop 0 (so it leaves with 1); raw sockets
+   accept exactly a four-byte header below 0xff and refuse everything else with NNG_EPROTO,
+   leaving state and message alone *)
+Theorem pair1_cooked_send_header m : norm_send (K1 false) m = Some (mkPmsg [0; 0; 0; 0]%N (pm_body m)).
+Proof. reflexivity. Qed.
+Theorem pair1_raw_send_header m :
+  (forall m', norm_send (K1 true) m = Some m' -> m' = m /\ exists b0 b1 b2 b3, pm_hdr m = [b0; b1; b2; b3] /\ (word32 b0 b1 b2 b3 < 255)%N) /\
+  (forall b0 b1 b2 b3, pm_hdr m = [b0; b1; b2; b3] -> (word32 b0 b1 b2 b3 < 255)%N -> norm_send (K1 true) m = Some m) /\
+  (forall fx s c a nb, norm_send (K1 true) m = None -> pair_step (K1 true) fx s (PSend c a nb m) = (s, [Complete a E_PROTO None])).
+Proof.
+  repeat split.
+  - unfold norm_send in H. destruct (pm_hdr m) as [|b0 [|b1 [|b2 [|b3 [|x r]]]]]; cbn [get32] in H; try discriminate.
+    destruct (255 <=? word32 b0 b1 b2 b3)%N; congruence.
+  - unfold norm_send in H. destruct (pm_hdr m) as [|b0 [|b1 [|b2 [|b3 [|x r]]]]]; cbn [get32] in H; try discriminate.
+    destruct (N.leb_spec 255 (word32 b0 b1 b2 b3)); [discriminate|]. exists b0, b1, b2, b3. split; [reflexivity|lia].
+  - intros b0 b1 b2 b3 E Hlt. unfold norm_send. rewrite E. cbn [get32]. destruct (N.leb_spec 255 (word32 b0 b1 b2 b3)); [lia|reflexivity].
+  - intros fx s c a nb E. cbn [pair_step]. now rewrite E.
+Qed.
+
+(* every header the model puts on the wire for PAIRv1 is four bytes: the NNI_ASSERT of pipe_send holds *)
+Lemma norm_hdr4 raw m m' : norm_send (K1 raw) m = Some m' -> length (pm_hdr m') = 4.
+Proof.
+  destruct raw; [|intros H; inversion H; reflexivity].
+  intros H. destruct (proj1 (pair1_raw_send_header m) m' H) as (-> & b0 & b1 & b2 & b3 & E & _). now rewrite E.
+Qed.
+
+(* ================= refutations on the pinned source ================= *)
+(* the send descriptor misses a wake-up: with room in the send buffer and the peer gone,
+   pipe_stop (pinned form, fx = false) leaves the descriptor cleared although a non-blocking
+   send succeeds *)
+Definition poll_w_witness (k : pkind) : list pop :=
+  [PSetOpt None (OSendBuf 2); PPipeStart 1%N (pair_peer k); PPipeClose 1%N].
+Theorem pair_poll_w_mirror_refuted_pinned k :
+  let s := fst (pair_run k false pair_init (poll_w_witness k)) in
+  ops_ok k false pair_init (poll_w_witness k) /\
+  pr_writable s = false /\ can_send s = true /\
+  exists s' rest, pair_step k false s (PSend None 7%N true (mkPmsg [0; 0; 0; 0]%N [1%N])) = (s', Complete 7%N E_OK None :: rest).
+Proof.
+  destruct k as [|[]]; cbn; repeat split; auto; try tauto; eexists _, _; reflexivity.
+Qed.
+Theorem pair_poll_w_mirror_repaired_on_witness k :
+  let s := fst (pair_run k true pair_init (poll_w_witness k)) in pr_writable s = can_send s.
+Proof. destruct k as [|[]]; reflexivity. Qed.
+
+(* why op_ok demands that a successful send completion belongs to the attached pipe:
+   pipe_send_cb calls send_sched(s) for whatever pipe is attached NOW.  If the callback of a
+   pipe that has meanwhile been stopped runs after a new peer was attached (it was queued
+   before the close; pipe_stop waits for it only after its critical section), send_sched
+   hands a second message to the new pipe's busy aio_send: the first one is overwritten. *)
+Definition stale_witness : list pop :=
+  [PSetOpt None (OSendBuf 4);
+   PSend None 1%N true (mkPmsg [] [1%N]); PSend None 2%N true (mkPmsg [] [2%N]); PSend None 3%N true (mkPmsg [] [3%N]);
+   PPipeStart 1%N PROTO_PAIR0;                 (* message 1 goes to pipe 1 *)
+   PPipeClose 1%N;                             (* pipe 1 is reaped; its successful completion is still queued *)
+   PPipeStart 2%N PROTO_PAIR0;                 (* message 2 goes to pipe 2 *)
+   PSendDone 1%N 0%N].                         (* the stale callback: message 3 replaces message 2 on pipe 2 *)
+Theorem pair_stale_send_completion_refuted fx :
+  let (s, tr) := pair_run K0 fx pair_init stale_witness in
+  tr_acc K0 tr = [mkPmsg [] [1%N]; mkPmsg [] [2%N]; mkPmsg [] [3%N]] /\
+  tr_tx tr = [mkPmsg [] [1%N]; mkPmsg [] [2%N]; mkPmsg [] [3%N]] /\
+  pr_p s = Some 2%N /\ sendingl s = [mkPmsg [] [3%N]] /\ tr_wloss tr = [].
+Proof. destruct fx; cbn; repeat split; reflexivity. Qed.
